@@ -16,7 +16,8 @@ DECIDED = [
     "orderings evaluated): exhausted -> no spawn, the message is rejected and its permit released; available -> spawn; the started counter "
     "is incremented on every path to the spawn and no suspension point separates the test from the increment and the spawn",
     "R-C10-STOP: the done-callback counts a finished task before evaluating the limit and sets the stop event under it; run_one_queue "
-    "cancels the consume task when the stop event is set; the surplus message is returned with reject (parameters untouched, see C03)",
+    "cancels the consume task when the stop event is set; the surplus message is returned with reject (parameters untouched, see C03); the executions "
+    "in flight at the stop get the worker's graceful_shutdown_time (argument mapping) before anything is cancelled",
     "R-C10-PLUGIN: the testing plugin builds its worker with the literal messages_limit=1 and runs it inside the wrapped enqueue after "
     "the real enqueue",
 ]
@@ -28,9 +29,10 @@ def run(ctx: Ctx) -> None:
     gate(ctx)
     stop(ctx)
     plugin(ctx)
-    from .C03 import unchanged
+    from .C03 import graceful_budget, unchanged
 
     unchanged(ctx, "R-C10-STOP")  # messages beyond the limit are returned untouched
+    graceful_budget(ctx, "R-C10-STOP")  # the M started executions get the graceful period to finish, they are not cut short by another budget
 
 
 def gate(ctx: Ctx, rule="R-C10-GATE") -> None:
